@@ -83,6 +83,41 @@ fn status_json_full(w: &World) -> String {
     out.join("\n")
 }
 
+/// Status entries for parents, children or CAs that do not exist (any more).
+fn stale_entries(w: &World) -> Vec<(String, String)> {
+    let cm = w.krill.ca_manager();
+    let mut v = Vec::new();
+    let handles = cm.ca_handles().unwrap_or_default();
+    for h in &handles {
+        let Ok(xca) = cm.get_ca(h) else { continue };
+        let Ok(st) = cm.get_ca_status(h) else { continue };
+        let children: BTreeSet<String> = xca.children().map(|c| c.to_string()).collect();
+        for c in st.children().keys() {
+            if !children.contains(&c.to_string()) {
+                v.push(("stale-entry".into(), format!("{h} reports status for {c}, which is not one of its children (children: {children:?})")));
+            }
+        }
+        let parents: BTreeSet<String> = xca.parents().map(|p| p.to_string()).collect();
+        for (p, _) in st.parents().iter() {
+            if !parents.contains(&p.to_string()) {
+                v.push(("stale-entry".into(), format!("{h} reports status for {p}, which is not one of its parents (parents: {parents:?})")));
+            }
+        }
+    }
+    // stored records of CAs that do not exist
+    if let Ok(rd) = std::fs::read_dir("data/status") {
+        let names: BTreeSet<String> = handles.iter().map(|h| h.to_string()).collect();
+        for e in rd.flatten() {
+            let n = e.file_name().to_string_lossy().to_string();
+            // (the trust anchor proxy keeps its status under "ta")
+            if e.path().is_dir() && !n.starts_with('.') && n != "ta" && !names.contains(&n) {
+                v.push(("stale-entry".into(), format!("status records are stored for {n}, which is not a CA of this instance")));
+            }
+        }
+    }
+    v
+}
+
 #[derive(Clone)]
 pub struct C19Model {}
 
@@ -282,6 +317,9 @@ impl Model for C19Model {
         if let Err(f) = w.pump() {
             return vec![("fatal".into(), f)];
         }
+        // --- entries exist only for what exists (also after the removed side
+        // has called in again)
+        v.extend(stale_entries(w));
         if !v.is_empty() {
             return v;
         }
@@ -291,6 +329,10 @@ impl Model for C19Model {
             let res = what_if(w, move |w| {
                 if let Err(e) = w.restart() {
                     return vec![("restart-failed".into(), e.to_string())];
+                }
+                let stale = stale_entries(w);
+                if !stale.is_empty() {
+                    return stale;
                 }
                 let after = status_json_full(w);
                 if after != before {
